@@ -27,7 +27,12 @@ def check_gt_from_this_frame(ctx, st):
     mine = set(id(o) for o in st.gt_snapshot)
     used = list(st.result.frame_ground_truth.objects) + [r.ground_truth_object for r in st.result.object_results
                                                           if r.ground_truth_object is not None]
-    if any(id(g) not in mine for g in used):
+    foreign = [g for g in used if id(g) not in mine]
+    if foreign:
+        # an implementation may legitimately work on copies: then the copies must be equal in value to objects of the frame
+        values = set(V.obj_digest(o) for o in st.gt_snapshot)
+        foreign = [g for g in foreign if V.obj_digest(g) not in values]
+    if foreign:
         ctx.violate("C13", "gt_from_this_frame", "a frame result is built on ground-truth objects that do not belong to the frame handed to add_frame_result",
                     {"frame_objects": len(st.gt_snapshot), "used": len(used)}, st.index)
         return False
@@ -88,8 +93,6 @@ class C13Monitor(X.Monitor):
         now = manager.frame_results
         if len(now) != len(rec["frames_before"]) or any(a is not b for a, b in zip(now, rec["frames_before"])):
             ctx.violate("C13", "scene_query_pure", "a scene query changed or re-ordered the manager's frame results", {}, index)
-        if len(frames) != len(rec["frames_before"]) or any(a is not b for a, b in zip(frames, rec["frames_before"])):
-            ctx.violate("C13", "history_is_delivery_order", "the manager's frame results are not the delivered results in delivery order", {}, index)
         self._check_dataset(ctx, lane, index, "get_scene_result")
         # scene_query_pure: asking twice gives the same numbers and leaves the history alone
         try:
@@ -841,25 +844,43 @@ def check_identity_fault_twins(ctx, lane):
 # ---- C13: a second evaluator alive in the same process, operations interleaved ------------------------
 
 
-def check_interleaved_manager(ctx, lane):
-    """C13 `history_independent` across evaluators: the plan is executed again on a fresh evaluator while a second
-    evaluator (other dataset with the same timestamps and tokens, other coordinate frame, permuted label order) is
-    driven in lock-step, one operation each in turn.  Nothing the other evaluator does may change this one's results."""
+def _noise_plan(plan):
+    """Another scenario for a second evaluator: sibling dataset (same timestamps and tokens, other poses), the other
+    coordinate frame, different evaluator-level filters."""
     from .plan import derive_sibling
 
-    plan = ctx.plan
-    if lane.aborted or not lane.steps:
-        return
-    noise_plan = derive_sibling(plan, dx=-64.0, dy=211.0, dz=-0.3, dyaw=-1.1)
-    noise_plan = dict(noise_plan)
+    noise_plan = dict(derive_sibling(plan, dx=-64.0, dy=211.0, dz=-0.3, dyaw=-1.1))
     cfg = copy.deepcopy(plan["config"])
     cfg["frame"] = "map" if cfg["frame"] == "base_link" else "base_link"
     if cfg.get("min_pts") is not None or cfg["task"] != "detection":
-        cfg["min_pts"] = 40 if not cfg.get("min_pts") else 0   # a different evaluator-level filter as well
+        cfg["min_pts"] = 40 if not cfg.get("min_pts") else 0
     if cfg.get("radii") is None:
         cfg["radii"] = 1.5
     noise_plan["config"] = cfg
     noise_plan["lookup"] = dict(plan["lookup"], interp=False)
+    noise_plan["ops"] = [op for op in plan["ops"] if op["op"] != "analyze"]
+    noise_plan["lookups"] = []
+    return noise_plan
+
+
+def run_prelude_evaluator(ctx):
+    """Before the evaluator under observation is even constructed, another evaluator with another dataset and other
+    filters lives and dies in the same process.  Anything it leaves behind (class attributes, module-level caches keyed
+    by timestamp / token / frame number) then meets the observed evaluator, whose own invariants must still hold."""
+    sub = _sub_ctx(ctx, _noise_plan(ctx.plan))
+    lane = X.Lane(sub, "prelude", monitors=())
+    lane.run()
+    ctx.probe("c13_prelude_evaluators")
+
+
+def check_interleaved_manager(ctx, lane):
+    """C13 `history_independent` across evaluators: the plan is executed again on a fresh evaluator while a second
+    evaluator (other dataset with the same timestamps and tokens, other coordinate frame, permuted label order) is
+    driven in lock-step, one operation each in turn.  Nothing the other evaluator does may change this one's results."""
+    plan = ctx.plan
+    if lane.aborted or not lane.steps:
+        return
+    noise_plan = _noise_plan(plan)
     sub = _sub_ctx(ctx, noise_plan)
     inter = X.Lane(ctx, "inter", frame=lane.frame, monitors=())
     noise = X.Lane(sub, "noise", monitors=())
